@@ -165,6 +165,35 @@ def runSession (entries : List (List Char)) : List String := Id.run do
       | _ => out := out ++ ["?"]
     return out
 
+/-- the same loop on the BYTES the process reads (the model's own `readFromGui` splits them into
+    lines); `answers`: the engine's bestmove answers in order, one consumed per dispatched `go` -/
+def runSessionBytes (answers : List String) (bytes : List Char) : List String := Id.run do
+  match readFromGui bytes with
+  | none => return ["exit 0"]
+  | some (first, rest0) =>
+    if cleanInput first ≠ "uci".toList then return ["no-handshake"]
+    let mut out : List String := ["uciok"]
+    let mut σ : Sess := ⟨startPos, []⟩
+    let mut rest := rest0
+    let mut ans := answers
+    let mut live := true
+    for _ in [0:bytes.length + 2] do
+      if live then
+        out := out ++ [traceStr σ.board σ.table]
+        match readFromGui rest with
+        | none => out := out ++ ["exit 0"]; live := false
+        | some (line, rest') =>
+          rest := rest'
+          let isGo := String.ofList ((Str.splitOn ' ' (cleanInput line)).headD []) == "go"
+          let a := if isGo then ans.headD "" else ""
+          if isGo then ans := ans.drop 1
+          match step H (sessSearch a) σ (some line) with
+          | .cont σ' o => σ := σ'; out := out ++ o
+          | .exit c => out := out ++ [s!"exit {c}"]; live := false
+          | .panic => out := out ++ ["panic"]; live := false
+          | .hang => out := out ++ ["hang"]; live := false
+    return out
+
 def splitSp (s : String) : List String := s.splitOn " "
 
 def specLegal (P : Spec.Position) : Bool := Spec.LegalPosition P
@@ -313,6 +342,11 @@ def doOp (ctx : Ctx) (line : String) : Ctx × String × String :=
        (ctx, toString (calculateTimeSlice gt (if c == "w" then .white else .black)), "-")
      | _ => (ctx, "bad-op", "-"))
   | "clean" => (ctx, escape (cleanInput (unescape rest)), "-")
+  | "sessb" =>
+    -- `sessb <answers,comma separated>|<escaped bytes of standard input>`
+    let (ansS, bytesS) := splitOnce rest "|"
+    let answers := if ansS.isEmpty then [] else ansS.splitOn ","
+    (ctx, " ~~ ".intercalate (runSessionBytes answers (unescape bytesS)), "-")
   | "sess" =>
     -- `sess <escaped script>`: entries separated by newlines
     let entries := (String.ofList (unescape rest)).splitOn "\n" |>.map String.toList
